@@ -72,6 +72,14 @@ impl SecondaryTransaction {
         crate::verif::gate("txn.start.before_pin").await;
         // pin a snapshot at version manager
         let pin_version = table.version.pin();
+        // The handle may be older than a DROP TABLE: the version pinned now may already lack the
+        // table's RowSets, and the statement would read an empty table that never existed.
+        if table.dropped.load(std::sync::atomic::Ordering::SeqCst) {
+            return Err(crate::storage::TracedStorageError::not_found(
+                "table",
+                table.table_ref_id.table_id,
+            ));
+        }
         #[cfg(risinglight_verif)]
         crate::verif::gate("txn.start.pinned").await;
         Ok(Self {
